@@ -73,11 +73,19 @@ func vfServerFactory(br vfBridge) (base.ServerFactory, error) {
 
 // vfClientArgs parses a bridge line (cert or legacy form) through the public
 // client factory.
+// vfSharedClientFactory, when set, is used by vfClientArgs instead of a fresh
+// factory per call.
+var vfSharedClientFactory base.ClientFactory
+
 func vfClientArgs(br vfBridge, legacy bool, iat int) (base.ClientFactory, any, error) {
 	vfSetBias(br.Biased) // the flag is process-wide: client and bridge of one case agree on it
-	cf, err := (&Transport{}).ClientFactory("")
-	if err != nil {
-		return nil, nil, err
+	cf := vfSharedClientFactory // one factory for several bridges, as obfs4proxy uses it (set by a case)
+	if cf == nil {
+		var err error
+		cf, err = (&Transport{}).ClientFactory("")
+		if err != nil {
+			return nil, nil, err
+		}
 	}
 	args := &pt.Args{}
 	if legacy {
